@@ -157,7 +157,16 @@ SecondSeqs ==
 Pairs == { a \o b : a \in FirstSeqs, b \in SecondSeqs }
 Triples == { a \o b \o c : a \in FirstSeqs, b \in {<<27, 91, 51, 24>>, <<27, 91, 52, 59, 36, 112>>, <<120>>}, c \in SecondSeqs }
 
+\* systematic OSC payloads: every sequence of up to MaxLen units after the separator, over one representative per
+\* class (letter, `;`, backslash, `]`, space, non-ASCII, an ESC x pair, a C0 control other than BEL)
+OscUnits == { <<120>>, <<59>>, <<92>>, <<93>>, <<32>>, <<233>>, <<27, 120>>, <<1>> }
+OscBodies == UNION { { FoldLeft(LAMBDA acc, u : acc \o u, <<59>>, q) : q \in [1..k -> OscUnits] } : k \in 0..MaxLen }
+OscSystematic ==
+  { intro \o <<code>> \o body \o term \o <<122>> :
+      intro \in {<<27, 93>>, <<157>>}, code \in {48, 49, 50, 51}, body \in OscBodies, term \in {<<7>>, <<156>>, <<27, 92>>} }
+
 Seeds == CASE Family = "graph"    -> {<<>>}
+           [] Family = "oscx"     -> OscSystematic
            [] Family = "pairs"    -> Pairs \cup Triples
            [] Family = "directed" -> Directed \cup LongOnes
            [] Family = "osc"      -> OscStrings
